@@ -116,7 +116,8 @@ def check_inprocess(c, rec):
     # (a few small integers, a short permutation or a small dropout mask coincide with noticeable probability)
     draws = any(s["k"] in ("rand", "randn", "normal", "train", "apply_init", "init_all")
                 or (s["k"] == "init" and s.get("fn") != "constant_")
-                or (s["k"] == "layer" and not s["kind"].startswith("bn")) for s in c["prog"])
+                or (s["k"] == "layer" and not s["kind"].startswith("bn") and s.get("i", 1) > 0) for s in c["prog"])
+    # (a zero-width Linear draws U(-0, 0): nothing that could differ between seeds)
     if draws and c["seed"] != c["seed2"]:
         d4, _ = run_program(c["prog"], c["seed2"])
         if d4 == d1:
